@@ -11,7 +11,7 @@ TRUSTED_COMMON = [
 PROPS = {
     "C11": {
         "lean": ["OlricModel.Props.C11"],
-        "streams": [("kv", (40, 300), (600, 400)), ("churn", (3, 300), (20, 1000))],
+        "streams": [("kv", (40, 300), (600, 400)), ("churn", (4, 300), (20, 1000))],
         "model": True,
         "level_text": "Refinement theorem (C11_refines): for every operation sequence of the store model, of any length and with any sizes, every answer is that of a plain map, compaction never changes contents, Put never loops; repeated Compaction answers done within 2*records + tables + 3 calls for every iteration order (C11_compaction_terminates, by a measure that every not-done call strictly lowers); plus transfer (export/import LWW) and count/iteration theorems. The model is tied to internal/kvstore by lock-step execution with full state dumps on generated sequences.",
         "design_ref": "DESIGN.md §6 C11",
@@ -62,7 +62,7 @@ PROPS["C12"] = {
 
 PROPS["C18"] = {
     "lean": ["OlricModel.Props.C18"],
-    "streams": [("alias", (30, 240), (300, 600)), ("kv", (8, 300), (60, 400)), ("cluster", (6, 150), (40, 400)), ("asyncbuf", (3, 30), (20, 60))],
+    "streams": [("alias", (30, 240), (300, 600)), ("kv", (8, 300), (60, 400)), ("cluster", (6, 150), (40, 400)), ("asyncbuf", (3, 30), (20, 60)), ("repair", (14, 60), (60, 150))],
     "model": True,
     "level_text": "Theorems over an explicit aliasing model (table memory = mutable array, a returned value = owned copy or view): with reads that copy — the generated fact extracted from table.Get/get on every run — a returned value is unaffected by every later sequence of writes, recycling and freeing of table memory, and poking it changes no table memory; the same statements are refuted for views by closed witnesses. Tied to the code by the alias stream, which keeps the very slices the store hands out, churns/recycles/transfers tables, then re-reads and scribbles on them, and reuses Put buffers.",
     "design_ref": "DESIGN.md §6 C18",
@@ -109,9 +109,9 @@ PROPS["C02"] = {
 }
 PROPS["C03"] = {
     "lean": ["OlricModel.Props.C03", "OlricModel.Props.C13"],
-    "streams": [("rebalance", (5, 3), (60, 5)), ("repair", (6, 60), (60, 150))],
+    "streams": [("rebalance", (9, 3), (60, 5)), ("repair", (6, 60), (60, 150))],
     "model": True,
-    "level_text": "Theorems about the hand-over of a key in separate steps that operations and crashes may interleave with: after the receiver's merge it holds the newer of its own and the sender's version (incoming on a tie) while the sender still holds its version; after the sender's drop exactly one of the two holds the key, the newest version, nobody else is touched (C03_move); whichever of the two members is lost at whichever point, the other one holds a version at least as new, except the loss of a sole holder before anything was merged (C03_move_crash_points; backups: C02); a move carries nothing from a member that holds nothing - a deleted key cannot come back through it (C03_move_nothing_from_nothing); while previous owners are listed a Get answers with a version at least as new as every live copy on the owner, on every previous owner and on every backup owner (C03_read_during_handover, for every route) and a Delete removes the key from all of them (C03_delete_during_handover); a Get with read-repair never writes to a member that is neither the owner nor a backup owner, so no copy is planted out of a later Delete's reach (C03_repair_skips_previous_owners); arrival order and repetition of merges do not matter (C06_merge_lww); previous owners stay listed until they report zero keys (C13_primary, C02_survivor_listed_primary). Hand-over shape extracted on every run (facts_tie). Tied to the code by the rebalance stream: joins and one graceful leave with data in small tables, operations from every member after the routing push, before any move, between single-table moves and after, a DMap named with the fragment prefix, white-box key placement after stabilisation; real DMAP.MOVEFRAGMENT deliveries in the repair stream.",
+    "level_text": "Theorems about the hand-over of a key in separate steps that operations and crashes may interleave with: after the receiver's merge it holds the newer of its own and the sender's version (incoming on a tie) while the sender still holds its version; after the sender's drop exactly one of the two holds the key, the newest version, nobody else is touched (C03_move); whichever of the two members is lost at whichever point, the other one holds a version at least as new, except the loss of a sole holder before anything was merged (C03_move_crash_points; backups: C02); a move carries nothing from a member that holds nothing - a deleted key cannot come back through it (C03_move_nothing_from_nothing); while previous owners are listed a Get answers with a version at least as new as every live copy on the owner, on every previous owner and on every backup owner (C03_read_during_handover, for every route) and a Delete removes the key from all of them (C03_delete_during_handover); a Get with read-repair never writes to a member that is neither the owner nor a backup owner, so no copy is planted out of a later Delete's reach (C03_repair_skips_previous_owners); arrival order and repetition of merges do not matter (C06_merge_lww); previous owners stay listed until they report zero keys (C13_primary, C02_survivor_listed_primary). Hand-over shape extracted on every run (facts_tie). Tied to the code by the rebalance stream: joins and one graceful leave with data in small tables, a Put placed inside the coordinator's routing update (table computed, not yet pushed; yield point routing.computed) of an almost empty cluster and read from every member right afterwards, operations from every member after the routing push, before any move, between single-table moves and after, a DMap named with the fragment prefix, white-box key placement after stabilisation; real DMAP.MOVEFRAGMENT deliveries in the repair stream.",
     "design_ref": "DESIGN.md §6 C03",
     "modelled": DMAP_MODELLED + "; fragment.Move / mergeFragments / kvstore transfer as moveMerge / moveDrop (Props/C03.lean) over the store theorems of C11 (exportDrop_spec, merge_spec, importTable_spec)",
     "assumptions": ["'stabilised' = routing updates, balancer passes and the empty-fragment janitor repeated until three rounds in a row change nothing (a balancer pass stops at the first empty fragment of a partition, so the janitor is part of convergence)",
@@ -207,7 +207,7 @@ PROPS["C13"] = {
     "lean": ["OlricModel.Props.C13"],
     "streams": [("routing", (5, 6), (60, 12))],
     "model": True,
-    "level_text": "Theorems about one routing-table computation of the coordinator, for EVERY previous owners list, member list, key-count report and ring answer: the primary owners list ends with the ring's owner (exactly one primary owner, last), every other listed owner was listed before, is still that live member (same name AND id: departed or re-joined members are dropped) and did not report zero keys, ids stay distinct (C13_primary, C13_primary_all_live); the backup list is (previous backups that are live, hold data and are not new) ++ the ring's replica owners in ring order, i.e. the current backup owners are the last min(R, N) - 1 entries, distinct, live, not the primary (C13_backups, C13_backups_members, C13_backups_valid under the stated ring contract RingOK); a member reporting left-over data is listed afterwards (C13_leftover); a push that reaches every member leaves all with the same table (C13_agreement); with distinct birthdates every member seeing the same member set names the same, oldest, coordinator whatever the listing order (C13_coordinator); the ring's bounded-load assignment never exceeds its bound and has room whenever partitions >= members (C13_load_bound, C13_room); witness that the bound is 0 and the assignment impossible with fewer partitions than members. Code shapes extracted on every run (facts_tie). Tied to the code by the routing stream: joins, graceful leaves (coordinator included), re-joins under the old address, data in between; single computations captured under the routing lock with everything they read and compared with the model; stabilised dumps of every member and a cluster client checked by an independent oracle.",
+    "level_text": "Theorems about one routing-table computation of the coordinator, for EVERY previous owners list, member list, key-count report and ring answer: the primary owners list ends with the ring's owner (exactly one primary owner, last), every other listed owner was listed before, is still that live member (same name AND id: departed or re-joined members are dropped) and did not report zero keys, ids stay distinct (C13_primary, C13_primary_all_live); the backup list is (previous backups that are live, hold data and are not new) ++ the ring's replica owners in ring order, i.e. the current backup owners are the last min(R, N) - 1 entries, distinct, live, not the primary (C13_backups, C13_backups_members, C13_backups_valid under the stated ring contract RingOK); a member reporting left-over data is listed afterwards (C13_leftover) and, when it still holds that data, is on the owners list of the last push of the same update - every member learns it, not only the coordinator (C13_leftover_pushed over updateRoutingPart, the update as repaired by aa5aa21); a push that reaches every member leaves all with the same table (C13_agreement); with distinct birthdates every member seeing the same member set names the same, oldest, coordinator whatever the listing order (C13_coordinator); the ring's bounded-load assignment never exceeds its bound and has room whenever partitions >= members (C13_load_bound, C13_room); witness that the bound is 0 and the assignment impossible with fewer partitions than members. Code shapes extracted on every run (facts_tie). Tied to the code by the routing stream: joins, graceful leaves (coordinator included), re-joins under the old address, data in between; single computations captured under the routing lock with everything they read and compared with the model; stabilised dumps of every member and a cluster client checked by an independent oracle.",
     "design_ref": "DESIGN.md §6 C13",
     "modelled": "internal/cluster/routingtable/{distribute,update,operations,left_over_data}.go and discovery.GetCoordinator (Cluster/Routing.lean); buraksezer/consistent is a parameter with the contract RingOK, its load assignment is modelled separately",
     "assumptions": ["the consistent-hash ring (third-party) answers within RingOK: checked on every captured computation by the stream, not proved",
